@@ -76,6 +76,8 @@ pub struct IP {
     pub forever_one: bool,
     /// Mode::Pending: the consumer takes two batches at once and a second thread scans one of them
     pub second_scanner: bool,
+    /// the add_signal threads come before the delivery threads in the default order
+    pub adders_first: bool,
 }
 
 fn log_yield<E: Ex>(o: &E::Output) {
@@ -298,7 +300,11 @@ fn unreported(log: &[Ev], initial: &[i32], match_values: bool) -> Option<String>
         if d.end == usize::MAX || d.begin > close_at {
             continue;
         }
-        let watched = initial.contains(&d.sig) || log[..d.begin].iter().any(|e| e.tag == "add_ret" && e.a as i32 == d.sig);
+        // watched: listed at construction, added before the delivery began, or - for a delivery inside an
+        // add_signal call that has not returned yet - the instance's action did run (it made its wake attempt)
+        let tid = log[d.begin].tid;
+        let woke = log[d.begin..d.end].iter().any(|e| e.tag == "wake" && e.tid == tid && e.depth > 0);
+        let watched = initial.contains(&d.sig) || log[..d.begin].iter().any(|e| e.tag == "add_ret" && e.a as i32 == d.sig) || woke;
         if !watched {
             continue;
         }
@@ -370,6 +376,22 @@ where
             max_nest: 0,
         });
     }
+    let mut adder_threads: Vec<ThreadSpec<Arc<IS<E>>>> = Vec::new();
+    for &sg in &p.adders {
+        adder_threads.push(ThreadSpec {
+            name: "A",
+            body: Box::new(move |s: &Arc<IS<E>>| {
+                sched::log("add_call", sg as u64, 0);
+                s.handle.clone().add_signal(sg).expect("add_signal");
+                sched::log("add_ret", sg as u64, 0);
+            }),
+            nest_signals: vec![],
+            max_nest: 0,
+        });
+    }
+    if p.adders_first {
+        threads.append(&mut adder_threads);
+    }
     let dn = ["D1", "D2", "D3"];
     for (di, sigs) in p.deliverers.iter().enumerate() {
         let sigs = sigs.clone();
@@ -388,18 +410,7 @@ where
             max_nest: 0,
         });
     }
-    for &sg in &p.adders {
-        threads.push(ThreadSpec {
-            name: "A",
-            body: Box::new(move |s: &Arc<IS<E>>| {
-                sched::log("add_call", sg as u64, 0);
-                s.handle.add_signal(sg).expect("add_signal");
-                sched::log("add_ret", sg as u64, 0);
-            }),
-            nest_signals: vec![],
-            max_nest: 0,
-        });
-    }
+    threads.append(&mut adder_threads);
     if p.free_closers == 0 {
         let init = p.initial.clone();
         let prop = p.prop;
@@ -593,7 +604,7 @@ fn check(log: &[Ev], p: &IP, closed_end: bool) -> Result<u64, String> {
 }
 
 fn ip(name: &'static str, prop: &'static str, mode: Mode) -> IP {
-    IP { name, prop, mode, initial: vec![S1], deliverers: vec![], adders: vec![], free_closers: 0, nest_on_k: vec![], max_nest: 1, max_rounds: 8, match_values: false, forever_one: false, second_scanner: false }
+    IP { name, prop, mode, initial: vec![S1], deliverers: vec![], adders: vec![], free_closers: 0, nest_on_k: vec![], max_nest: 1, max_rounds: 8, match_values: false, forever_one: false, second_scanner: false, adders_first: false }
 }
 
 pub fn scenarios(prop: &str, tier: Tier) -> Vec<Item> {
@@ -618,6 +629,12 @@ pub fn scenarios(prop: &str, tier: Tier) -> Vec<Item> {
             p.deliverers = vec![vec![S1], vec![S2]];
             p.adders = vec![S2];
             v.push(item(build::<SignalOnly>(p), b(1, 2), "add_signal(S2) from another thread vs deliveries of S1 and S2"));
+            let mut p = ip("raw_wait_two_threads_add_same_signal", prop, Mode::Wait);
+            p.adders = vec![S2, S2];
+            p.adders_first = true;
+            p.deliverers = vec![vec![S2, S2]];
+            p.match_values = true;
+            v.push(item(build::<WithRawSiginfo>(p), b(1, 2), "two threads add the same (new) signal through clones of the handle, then it is delivered: one record per delivery"));
             let mut p = ip("sigonly_pending_two_scanners", prop, Mode::Pending);
             p.deliverers = vec![vec![S1]];
             p.second_scanner = true;
